@@ -211,3 +211,27 @@ VF_SUB(rabin_cardsecret_guessing_prover, 400, 8000) {
   if (acc && !should) ctx.fail("soundness/rabin_cardsecret/guessing-prover-accepted-for-other-coins", ctx.desc.str());
   if (!acc && should) ctx.fail("soundness/rabin_cardsecret/guessing-prover-rejected-on-its-guess", ctx.desc.str());
 }
+
+// (f) the guessing prover of (b) for the Rabin card encoding: TMCG_VerifyStackEquality on TMCG_Card stacks with one substituted card.
+VF_SUB(rabin_stack_guessing_prover, 160, 4000) {
+  size_t kappa = (size_t)ctx.c.range(1, 5), k = (size_t)ctx.c.range(1, 2), w = (size_t)ctx.c.range(1, 2), n = (size_t)ctx.c.range(2, 3); bool cyclic = ctx.c.coin(); std::ostringstream d;
+  RabinPlayers P(ctx, k, d); SchindelhauerTMCG tp(kappa, k, w), tv(kappa, k, w); size_t maxt = (size_t)1 << w;
+  TMCG_Stack<TMCG_Card> s, s2; TMCG_StackSecret<TMCG_CardSecret> ss;
+  for (size_t i = 0; i < n; i++) { TMCG_Card c(k, w); tp.TMCG_CreateOpenCard(c, P.ring, i % maxt); s.push(c); }
+  tp.TMCG_CreateStackSecret(ss, cyclic, P.ring, 0, n); tp.TMCG_MixStack(s, s2, ss, P.ring);
+  { size_t pos = ctx.c.index(n); TMCG_Card x(k, w), xm(k, w); TMCG_CardSecret cs(k, w); tp.TMCG_CreateOpenCard(x, P.ring, (ss[pos].first % maxt + 1) % maxt); tp.TMCG_CreateCardSecret(cs, P.ring, 0); tp.TMCG_MaskCard(x, xm, cs, P.ring); s2[pos] = xm; } // another type at one position: statement false
+  std::vector<int> guess(kappa), coins(kappa); bool same = ctx.c.prob(1, 3); for (size_t i = 0; i < kappa; i++) { guess[i] = ctx.c.coin(); coins[i] = same ? guess[i] : (int)ctx.c.coin(); }
+  Relay rl; bool acc = false;
+  rl.run(ctx.c.seed64(), ctx.c.seed64(),
+    [&](std::iostream &io) { unsigned long sec = 0; io >> sec; io.ignore(1, '\n'); mpz_t foo; mpz_init(foo);
+      for (unsigned long i = 0; i < sec && i < guess.size(); i++) { TMCG_StackSecret<TMCG_CardSecret> ss2; TMCG_Stack<TMCG_Card> s3; tp.TMCG_CreateStackSecret(ss2, cyclic, P.ring, 0, n); tp.TMCG_MixStack(guess[i] ? s2 : s, s3, ss2, P.ring);
+        std::ostringstream ost; ost << s3 << std::endl; tmcg_mpz_shash(foo, ost.str()); io << foo << std::endl; io >> foo; if (!io.good()) break; io << ss2 << std::endl; }
+      mpz_clear(foo); },
+    [&](std::iostream &io) { std::vector<int> fr; for (int cbit : coins) fr.push_back(cbit ? 0xFF : 0x00); rng_script_requests(fr); acc = tv.TMCG_VerifyStackEquality(s, s2, cyclic, P.ring, io, io); }, nullptr);
+  std::string sent, gs; for (size_t i = 1; i < rl.v_lines.size(); i++) sent += (rl.v_lines[i] == "0" ? '0' : '1'); for (int b : guess) gs += b ? '1' : '0';
+  bool equal_on_played = sent.size() <= gs.size() && gs.compare(0, sent.size(), sent) == 0, should = sent.size() == kappa && equal_on_played;
+  ctx.desc << "rabin stack equality" << d.str() << " k=" << k << " w=" << w << " n=" << n << (cyclic ? " rotation" : " permutation") << " kappa=" << kappa << " guess=" << gs << " coins-sent=" << sent << " accepted=" << acc;
+  ctx.label(should ? "guess==coins" : "guess!=coins"); ctx.label("kappa=" + std::to_string(kappa)); ctx.nontrivial(ctx.desc.str());
+  if (acc && !should) ctx.fail("soundness/rabin_stack_cutchoose/guessing-prover-accepted-for-other-coins", ctx.desc.str());
+  if (!acc && should) ctx.fail("soundness/rabin_stack_cutchoose/guessing-prover-rejected-on-its-guess", ctx.desc.str());
+}
